@@ -10,13 +10,15 @@ def prepare_workspace(pid):
     """Per-property copy of the harness crate (own target dir, so checks can run concurrently).
     Sources are re-copied on every run; zkryptium is a path dependency on /repo, so the encoding
     is rebuilt from /repo's current working tree."""
-    ws = os.path.join(VERIF, "work", pid, "harness")
+    ws = os.path.join(VERIF, "work", pid + os.environ.get("VERIF_WORKTAG", ""), "harness")
     os.makedirs(ws, exist_ok=True)
     src = os.path.join(VERIF, "harness")
     subprocess.run(["rsync", "-a", "--delete", "--exclude", "target", "--exclude", "Cargo.lock",
                     src + "/", ws + "/"], check=True)
     ct = open(os.path.join(ws, "Cargo.toml")).read()
     ct = ct.replace('path = "../models/', 'path = "%s/models/' % VERIF)
+    # the repository under check (default /repo; mutation experiments point this at a scratch worktree)
+    ct = ct.replace('path = "/repo"', 'path = "%s"' % os.environ.get("VERIF_REPO", "/repo"))
     open(os.path.join(ws, "Cargo.toml"), "w").write(ct)
     lock = os.path.join(ws, "Cargo.lock")
     if not os.path.exists(lock):
@@ -61,7 +63,7 @@ def main(argv):
         specs = [s for s in specs if a.only in s.name]
     ws = prepare_workspace(pid)
     runner.HARNESS = ws
-    runner.WORK = os.path.join(VERIF, "work", pid)
+    runner.WORK = os.path.join(VERIF, "work", pid + os.environ.get("VERIF_WORKTAG", ""))
     runner.write_generated(specs)
 
     results = {}
@@ -116,7 +118,7 @@ def main(argv):
         def work(item):
             cls, s1 = item
             # own workspace copy so that inplace playback edits and builds do not collide
-            wsx = os.path.join(VERIF, "work", pid, "pb_" + s1.name)
+            wsx = os.path.join(VERIF, "work", pid + os.environ.get("VERIF_WORKTAG", ""), "pb_" + s1.name)
             subprocess.run(["rsync", "-a", "--delete", "--exclude", "target", ws + "/", wsx + "/"], check=True)
             try:
                 tr = replay.transport(pid, s1, results[s1.name], wsx)
